@@ -204,6 +204,8 @@ def a1_case(rng, nops, trec):
                 c = pts[0][1]
                 lines.append(f"a1 ask {n} {fb(c)}")
                 outs.append("pts=" + ",".join(f"{s}@{float(xx)!r}" for s, xx in pts) + " " + a1_obs(l))
+                if c not in under_before:
+                    fails.append(("a1_request_not_undersampled", f"request went to x={c}, not an under-sampled abscissa, while {sorted(under_before)} are"))
                 if low and c not in low and literal_fail is None:
                     literal_fail = ("a1_request_goes_to_low_count_abscissa",
                                     f"abscissae {sorted(low)} have fewer than min_samples={mins} samples but the request "
